@@ -624,6 +624,24 @@ func c20SegmentFacts() string {
 		return "cannot parse concurrencylimiter.go: " + err.Error()
 	}
 	problem := ""
+	// the atomically accessed int64 must be the first field of holder: anywhere else it is not 64-bit aligned on
+	// 32-bit platforms, every release panics and the token is lost (finding C20-3)
+	ast.Inspect(f, func(n ast.Node) bool {
+		ts, ok := n.(*ast.TypeSpec)
+		if !ok || ts.Name.Name != "holder" {
+			return true
+		}
+		st, ok := ts.Type.(*ast.StructType)
+		if !ok || len(st.Fields.List) == 0 {
+			return false
+		}
+		first := st.Fields.List[0]
+		id, _ := first.Type.(*ast.Ident)
+		if len(first.Names) != 1 || first.Names[0].Name != "status" || id == nil || id.Name != "int64" {
+			problem = "holder.status (int64, accessed with sync/atomic) is not the first field of holder: unaligned on 32-bit platforms"
+		}
+		return false
+	})
 	for _, d := range f.Decls {
 		fd, ok := d.(*ast.FuncDecl)
 		if !ok || fd.Body == nil {
@@ -713,6 +731,51 @@ func runC20(c *Ctx) error {
 	for i := 0; i < n && !c.Rep.ShouldStop(); i++ {
 		c20Run(c, m, c20Gen(c.Rng))
 	}
+	c20Directed(c)
 	c20Free(c, c.Rng.Fork(), c.N(20, 400))
 	return nil
+}
+
+// c20Directed (finding C20-2, notes/hunt/C20 find1): a goroutine whose Acquire came back empty-handed, on a context
+// derived from the context of a goroutine that holds a token, must not be able to give that token away.
+func c20Directed(c *Ctx) {
+	rep := c.Rep
+	cl.VerifHook = nil
+	for round := 0; round < 5; round++ {
+		cs := map[string]interface{}{"directed": "limit 1: parent holds the token; a child on a cancelled context derived from the parent's calls TemporarilyRelease; a third goroutine tries to acquire", "round": round}
+		base := cl.With(context.Background(), 1)
+		pctx, prel := cl.Acquire(base)
+		cctx, cancel := context.WithCancel(pctx)
+		cancel()
+		c2, crel := cl.Acquire(cctx) // the channel is full and the context is done: empty-handed
+		entered, leave := make(chan struct{}), make(chan struct{})
+		go cl.TemporarilyRelease(c2, func() { close(entered); <-leave })
+		<-entered
+		got := make(chan struct{})
+		go func() {
+			_, r := cl.Acquire(base)
+			close(got)
+			r()
+		}()
+		select {
+		case <-got:
+			rep.Fail("impl_ne_spec", nil, cs, map[string]interface{}{"what": "two goroutines hold a token of a limiter of size 1: the child's TemporarilyRelease gave the parent's token away while the parent was running"})
+			close(leave)
+			prel()
+			crel()
+			return
+		case <-time.After(60 * time.Millisecond):
+		}
+		close(leave)
+		prel()
+		crel()
+		select {
+		case <-got:
+		case <-patient(5 * time.Second):
+			rep.Fail("impl_ne_spec", nil, cs, map[string]interface{}{"what": "after every holder had released, an Acquire did not succeed within 5 s (a token was lost)"})
+			return
+		}
+		rep.Count("directed:empty_handed_child")
+		rep.Eval(fmt.Sprintf("directed|empty-handed-child|%d", round), true, cs)
+	}
 }
